@@ -183,5 +183,6 @@ def constant_fold_unary_op(op: str, value: ConstantValue) -> int | float | None:
     elif op == "~" and isinstance(value, int):
         return ~value
     elif op == "+" and isinstance(value, (int, float)):
-        return value
+        # Not "return value": +True is the int 1, not the bool True.
+        return +value
     return None
